@@ -189,7 +189,10 @@ Inductive label :=
 | LRelay
 | LConfirmTick (c h : N)
 | LSocketLoss (c : N)
-| LAccept (c : N).   (* a socket is accepted and the protocol header read: connection.start goes out *)
+| LAccept (c : N)    (* a socket is accepted and the protocol header read: connection.start goes out *)
+| LBadMethod (c h : N)   (* a well-framed method frame whose payload does not decode (unknown class or method id,
+                            truncated arguments): channel.handleIncoming answers with a connection error *)
+| LHeartbeat (c h : N).  (* a heartbeat frame: legal on channel 0 at any time, fatal on any other channel *)
 
 (* reply codes (amqp/constants_generated.go) and class/method ids *)
 Definition NoRoute := 312. Definition AccessRefused := 403. Definition NotFound := 404.
@@ -1134,6 +1137,20 @@ Definition step (cfg : config) (fx : fixes) (s : state) (l : label) : state * li
     match get_conn s c with
     | Some _ => (s, [])
     | None => (s <| conns := aset N.eqb c {| cn_chans := [(0, channel0 <| ch_status := ChNew |>)]; cn_qos := qos0; cn_stage := StOpen |} (conns s) |>, [])
+    end
+  | LBadMethod c h =>
+    match get_conn s c with
+    | None => (s, [])
+    | Some cn0 =>
+      let opened := cstage_eqb (cn_stage cn0) StOpen in
+      if negb opened && negb (h =? 0) then conn_close cfg fx s c else
+      let s := ensure_chan s c h in
+      apply_err_st cfg fx opened s c h (refuse s (ConnErr FrameError 0 0))
+    end
+  | LHeartbeat c h =>
+    match get_conn s c with
+    | None => (s, [])
+    | Some _ => if h =? 0 then (s, []) else conn_close cfg fx s c
     end
   | LAccept c =>
     match get_conn s c with
